@@ -33,6 +33,7 @@ def make(spec):
         else:
             top.comb += [mi.ar.valid.eq(av), mi.ar.addr.eq(Mux(av, arr[tgt], spec.get("idle_addr", 0))),
                          mi.r.ready.eq(rr)]
+    tb_regs = top.tb_regs = []
     for j, sj in enumerate(slaves):
         ar_, wr_, rv = Signal(), Signal(), Signal()
         ins += [ar_, wr_, rv]
@@ -56,6 +57,8 @@ def make(spec):
         ]
         if wr:
             top.sync += cw.eq(cw + wfire - rfire)
+        # the test bench registers of this slave, for the L2 lane's projection (harness/families/axilic_l2.py)
+        tb_regs.append({"ca": ca, "cw": cw if wr else None, "hold": hold})
     decoders = []
     for (org, size), sj in zip(regs, slaves):
         r = SoCRegion(origin=org, size=size)
